@@ -133,6 +133,17 @@ Proof.
         -- exact Hlen.
 Qed.
 
+Lemma dec_reread_value v : 0 <= dec_coef v ->
+  dec_neg (dec_reread v) = dec_neg v /\ dec_exp (dec_reread v) <= 0 /\
+  (dec_exp v <= 0 -> dec_reread v = v) /\
+  (0 < dec_exp v -> dec_coef (dec_reread v) = dec_coef v * 10 ^ dec_exp v /\ dec_exp (dec_reread v) = 0).
+Proof.
+  destruct v as [neg coef e]. cbn [dec_coef dec_neg dec_exp]. intros Hc. unfold dec_reread. cbn [dec_coef dec_neg dec_exp].
+  destruct (Z.eqb_spec coef 0) as [->|Hn]; destruct (Z.ltb_spec 0 e); cbn [andb];
+    repeat match goal with |- context [0 <? ?x] => destruct (Z.ltb_spec 0 x) end; cbn [dec_coef dec_neg dec_exp];
+    repeat split; intros; try lia; try reflexivity.
+Qed.
+
 (* every literal the guard admits is a valid xs:decimal literal *)
 Lemma decimal_accept_valid s v : parse_decimal s = Ok v -> valid_xsd_decimal s = true.
 Proof.
@@ -318,12 +329,9 @@ Section FloatRoundTrip.
     end.
   Lemma float_roundtrip v : parse_float (print_float v) = Ok v /\ valid_xsd_float (print_float v) = true.
   Proof.
-    destruct v as [|[]|f]; try (split; vm_compute; reflexivity).
+    destruct v as [|[]|f]; [split; vm_compute; reflexivity|split; vm_compute; reflexivity|split; vm_compute; reflexivity|].
     unfold print_float, parse_float. destruct (float_form_ok _ (translate_form _ (repr_shape f))) as [G V].
     rewrite G, float_of_repr. auto.
   Qed.
 End FloatRoundTrip.
 
-(* literals outside the lexical space of xs:float / xs:double are rejected before float() sees them *)
-Lemma float_guard_valid s c : float_guard s = Some c -> valid_xsd_float s = true.
-Proof. Abort.
